@@ -18,6 +18,9 @@
 // object  := shape <region> | solid <region> (excl <region params of same type> | noexcl)
 //            (angle start interior | noangle) | tr tx ty tz <object>
 //          | xf <r00..r22 tx ty tz> <object> | neg <object>
+//          | trd hz lox loy hix hiy | trap hz theta phi (hy hxlo hxhi alpha)x2   (GenPrism factories)
+//          | polycone <n> z*n outer*n (inner r*n|noinner) (angle s i|noangle)   (PolyCone::or_solid)
+//          | polyprism <n> z*n outer*n (inner..|noinner) (angle..|noangle) <nsides> orient
 //          | all <k> <object>*k | any <k> <object>*k | sub <object> <object>
 // All doubles are 16-hex-digit bit patterns.  Every op that runs construction code is guarded so
 // that a crash (e.g. unbounded recursion -> stack overflow) is reported as `crash sig<N>`.
@@ -43,6 +46,7 @@
 #include "orange/orangeinp/InputBuilder.hh"
 #include "orange/orangeinp/IntersectRegion.hh"
 #include "orange/orangeinp/IntersectSurfaceBuilder.hh"
+#include "orange/orangeinp/PolySolid.hh"
 #include "orange/orangeinp/Shape.hh"
 #include "orange/orangeinp/Solid.hh"
 #include "orange/orangeinp/Transformed.hh"
@@ -564,6 +568,88 @@ struct ObjParser
                     label("gp"), GenPrism{*dynamic_cast<GenPrism*>(reg.get())});
             p.ok = false;
             return nullptr;
+        }
+        if (k == "trd")
+        {
+            // trd hz lox loy hix hiy  -> GenPrism::from_trd
+            double hz = p.real(), lx = p.real(), ly = p.real(), hxx = p.real(), hy = p.real();
+            if (!p.ok)
+                return nullptr;
+            return std::make_shared<Shape<GenPrism>>(
+                label("trd"), GenPrism::from_trd(hz, Real2{lx, ly}, Real2{hxx, hy}));
+        }
+        if (k == "trap")
+        {
+            // trap hz theta phi (hy hxlo hxhi alpha)x2 -> GenPrism::from_trap
+            double hz = p.real(), th = p.real(), ph = p.real();
+            GenPrism::TrapFace f[2];
+            for (auto& face : f)
+            {
+                face.hy = p.real();
+                face.hx_lo = p.real();
+                face.hx_hi = p.real();
+                face.alpha = Turn{p.real()};
+            }
+            if (!p.ok)
+                return nullptr;
+            return std::make_shared<Shape<GenPrism>>(
+                label("trap"), GenPrism::from_trap(hz, Turn{th}, Turn{ph}, f[0], f[1]));
+        }
+        if (k == "polycone" || k == "polyprism")
+        {
+            // polycone <npts> z*n outer*n (inner r*n | noinner) (angle s i | noangle)
+            // polyprism ... <nsides> orientation      (through the or_solid factories)
+            int n = p.integer();
+            if (!p.ok || n < 2 || n > 12)
+            {
+                p.ok = false;
+                return nullptr;
+            }
+            std::vector<double> z, outer, inner;
+            for (int j = 0; j < n; ++j)
+                z.push_back(p.real());
+            for (int j = 0; j < n; ++j)
+                outer.push_back(p.real());
+            string ik = p.next();
+            if (ik == "inner")
+            {
+                for (int j = 0; j < n; ++j)
+                    inner.push_back(p.real());
+            }
+            else if (ik != "noinner")
+            {
+                p.ok = false;
+                return nullptr;
+            }
+            string ak = p.next();
+            SolidEnclosedAngle sea;
+            if (ak == "angle")
+            {
+                double st = p.real(), in = p.real();
+                if (!p.ok)
+                    return nullptr;
+                sea = SolidEnclosedAngle{Turn{st}, Turn{in}};
+            }
+            else if (ak != "noangle")
+            {
+                p.ok = false;
+                return nullptr;
+            }
+            int nsides = 0;
+            double orient = 0;
+            if (k == "polyprism")
+            {
+                nsides = p.integer();
+                orient = p.real();
+            }
+            if (!p.ok)
+                return nullptr;
+            PolySegments seg = inner.empty()
+                                   ? PolySegments{std::move(outer), std::move(z)}
+                                   : PolySegments{std::move(inner), std::move(outer), std::move(z)};
+            if (k == "polycone")
+                return PolyCone::or_solid(label("pcone"), std::move(seg), std::move(sea));
+            return PolyPrism::or_solid(label("pprism"), std::move(seg), std::move(sea), nsides, orient);
         }
         if (k == "solid")
         {
